@@ -40,6 +40,7 @@ type c17Model struct {
 	genCalls  [][3]int // shape 10: (worker id, function, argument)
 	genSrc    string
 	genSeed   uint64
+	records   [][]string // groups of lines that one print produces: they must stay together in the output
 	chunked   bool // output is compared write by write (the workers' last output has no newline)
 	handshake bool // cores wait for each other's writes to globals: must complete within a step bound under fair scheduling
 }
@@ -231,6 +232,34 @@ fn sleeper(id: int) {
 			m.finals = append(m.finals, f)
 		}
 		tail()
+	case 14:
+		// every print produces a record of three lines: a record of one core is never torn apart by another
+		b.WriteString(`fn rec(id: int, n: int) {
+    for k in 0..n {
+        print("<", id, k, "\n", "mid", id, k, "\n", id, k, ">\n");
+    }
+}
+`)
+		b.WriteString("fn main() {\n")
+		for i := 0; i <= n; i++ {
+			k := 1 + (i+iters)%3
+			if i < n {
+				fmt.Fprintf(&b, "    spawn rec(%d, %d);\n", i, k)
+			} else {
+				fmt.Fprintf(&b, "    rec(%d, %d);\n", i, k)
+			}
+			for j := 0; j < k; j++ {
+				r := []string{fmt.Sprintf("< %d %d ", i, j), fmt.Sprintf(" mid %d %d ", i, j), fmt.Sprintf(" %d %d >", i, j)}
+				m.records = append(m.records, r)
+				for _, l := range r {
+					add(l)
+				}
+				if j == k-1 {
+					m.finals = append(m.finals, r[2])
+				}
+			}
+		}
+		b.WriteString("}\n")
 	case 13:
 		// tiny leaf functions spawned while a try of the parent is active; one of them throws: that is the
 		// thread's uncaught exception (a fatal interrupt of its core), never something the parent catches
@@ -423,6 +452,17 @@ func runC17(t *testing.T, spec RunSpec) *Verdict {
 	if spec.P("free", 0) == 1 {
 		return v // free-mode specs run in the -race binary (execFree), never inline
 	}
+	if k := spec.P("reject", -1); k >= 0 {
+		// a closure that captures a local must never reach another thread: the analyzer rejects it
+		src := c17ClosurePrograms[k%len(c17ClosurePrograms)]
+		p := Single(src)
+		a := Analyze(p, NewProvider(p.Modules))
+		if a.PanicMsg == "" && len(a.Syntax) == 0 && a.Errors == 0 {
+			v.fail(P, "wrong-result", "closures-not-sent-to-threads", fmt.Sprintf("closure-program-%d", k), "a program that passes a closure capturing a local to `spawn` was accepted without an error diagnostic:\n"+src)
+		}
+		v.Extra = map[string]any{"source": src}
+		return v
+	}
 	m := c17Workload(spec)
 	prog, err := MustCompile(m.prog)
 	if err != nil {
@@ -568,6 +608,19 @@ func runC17(t *testing.T, spec RunSpec) *Verdict {
 			v.fail(P, "wrong-result", "output-multiset", "shape"+fmt.Sprint(spec.P("shape", 0)), "output differs from the model: "+d)
 			return v
 		}
+		// each print whole: the lines of one print follow one another directly
+		pos := map[string]int{}
+		for i, l := range final {
+			pos[l] = i
+		}
+		for _, r := range m.records {
+			for j := 1; j < len(r); j++ {
+				if pos[r[j]] != pos[r[0]]+j {
+					v.fail(P, "wrong-result", "print-whole", "shape"+fmt.Sprint(spec.P("shape", 0)), fmt.Sprintf("the lines of one print were separated: %q is at line %d, %q at line %d", r[0], pos[r[0]], r[j], pos[r[j]]))
+					return v
+				}
+			}
+		}
 	} else {
 		// (c) Wait returns an interrupt one of the cores actually raised.
 		if !m.badKinds[got.Kind] {
@@ -641,8 +694,24 @@ func init() {
 	}
 }
 
+// c17ClosurePrograms: closures that capture a local, handed to a spawn in different guises.
+var c17ClosurePrograms = []string{
+	`fn g(cb: fn() -> null) { cb(); }
+fn main() { let n = 42; spawn g(fn() -> null { println("ticks:", n); }); }`,
+	`fn g(cb: fn() -> null) { cb(); }
+fn main() { let n = 42; let cb = fn() -> null { println("ticks:", n); }; spawn g(cb); }`,
+	`fn tick() { println("tick"); }
+fn g(cb: fn() -> null) { cb(); }
+fn main() { let n = 42; let tick = fn() -> null { println("ticks:", n); }; spawn g(tick); }`,
+	`fn g(id: int, cb: fn() -> null) { cb(); println(id); }
+fn main() { let n = [1]; let cb = fn() -> null { n.push(2); }; for i in 0..2 { spawn g(i, cb); } }`,
+}
+
 func planC17(t *testing.T, tier string, seed uint64) ([]RunSpec, error) {
 	var plan []RunSpec
+	for k := range c17ClosurePrograms {
+		plan = append(plan, RunSpec{Property: "C17", Workload: "c17/closure-to-spawn-rejected", Params: map[string]int{"reject": k}, Sim: SimParams{StepCostNs: 100}, Choices: &simrt.Sparse{}})
+	}
 	perCell := 24
 	ns := []int{1, 2, 3, 5, 8}
 	sweepCap := 150
@@ -652,7 +721,7 @@ func planC17(t *testing.T, tier string, seed uint64) ([]RunSpec, error) {
 		sweepCap = 0
 	}
 	idx := 0
-	for shape := 0; shape <= 13; shape++ {
+	for shape := 0; shape <= 14; shape++ {
 		for _, n := range ns {
 			for late := 0; late < 3; late++ {
 				base := RunSpec{Property: "C17", Workload: fmt.Sprintf("c17/shape%d", shape), Params: map[string]int{"shape": shape, "n": n, "iters": 1 + (n+late)%3, "main_late": late}}
